@@ -29,6 +29,11 @@ DualS(n, ncv, kr, kp, nm, plr, plp, rbys, pbys) ==
 DualRandS(n, ncv, nr, np, nm, plr, plp, types, rbys, pbys) ==
   {Cfg("dualrand", bt[1], bt[2], "random", ncv, n, nr, np, byR, byP, TRUE, nm, plr, plp) : bt \in types, byR \in rbys, byP \in pbys}
 
+\* bootstrap_testset / _rdm / _pattern (the RDM-only routine always uses the 'index' pattern descriptor)
+TestsetS(n, nm, types, rbys, pbys) ==
+  {Cfg("testset", bt[1], bt[2], "testset", 1, n, 1, 1, IF bt[1] THEN byR ELSE "index", IF bt[2] THEN byP ELSE "index",
+       TRUE, nm, 9, 9) : bt \in types, byR \in rbys, byP \in pbys}
+
 (* ---- quick tier ---- *)
 \* NR = 3, NC = 4, trimmed draws: every routine, unique and grouping descriptors, N = 2 for the plain bootstraps
 QuickA == FixedS(3)
@@ -52,6 +57,13 @@ QuickD == BootS(2, 3, {<<TRUE, TRUE>>}, {"subj", "grp"}, {"cond", "cat"})
           \cup BootCvS(1, 2, 2, 1, 3, 0, 9, {<<TRUE, TRUE>>}, {"subj", "grp"}, {"cond"})
           \cup DualS(1, 1, 2, 1, 2, 0, 9, {"subj", "grp"}, {"cond"})
           \cup DualRandS(1, 2, 1, 0, 3, 0, 9, {<<TRUE, TRUE>>}, {"subj", "grp"}, {"cond"})
+
+\* NR = 3, NC = 6, trimmed draws + "first half twice": the test-set routines
+QuickE == TestsetS(2, 3, Types, {"subj", "grp"}, {"cond", "index"})
+\* NR = 3, NC = 5: every draw outcome of sample 1 (3125 / 27) for the one-axis test-set routines
+ThorE == TestsetS(2, 3, {<<FALSE, TRUE>>, <<TRUE, FALSE>>}, {"subj", "grp"}, {"cond"})
+\* NR = 3, NC = 8, trimmed: grouped conditions ('cat': 4 groups of 2, so that 3 groups can stay undrawn) and RDM groups
+ThorF == TestsetS(2, 3, {<<TRUE, TRUE>>, <<FALSE, TRUE>>}, {"grp"}, {"cat"})
 
 (* ---- thorough tier ---- *)
 \* NR = 3, NC = 4, every draw outcome (27 x 256) of the first sample, second sample identity / all-first
